@@ -67,7 +67,7 @@ def execute(pl, res):
         ersv = -1 if ers is None else ers
         cfg = f"p={p},{alpha},{dt}" + (f",ers={ers}" if ers is not None else "")
         v = lambda clause, d, f=None: res.viol(ch, cfg, clause, d, f)  # noqa: E731
-        for spelling in ("default", "keyword", "positional", "int"):
+        for spelling in ("default", "keyword", "positional", "int", "cast-bfloat16", "cast-half", "cast-double", "cast-to-float64", "eval", "deepcopy"):
             if spelling == "int" and p not in (0.0, 1.0):
                 continue
             if spelling == "positional" and ers is None:
@@ -75,7 +75,14 @@ def execute(pl, res):
             cfg = f"p={p},{alpha},{dt}" + (f",ers={ers}" if ers is not None else "") + ("" if spelling == "default" else f",{spelling} arguments")
             v = lambda clause, d, f=None, cfg=cfg: res.viol(ch, cfg, clause, d, f)  # noqa: E731
             try:
-                chan = make(ch, p, ers, spelling)
+                if spelling.startswith("cast") or spelling in ("eval", "deepcopy"):
+                    # nn.Module conveniences applied after construction: the configured probability stays the configured probability
+                    import copy
+                    chan = make(ch, p, ers, "default")
+                    chan = {"cast-bfloat16": lambda c_: c_.bfloat16(), "cast-half": lambda c_: c_.half(), "cast-double": lambda c_: c_.double(),
+                            "cast-to-float64": lambda c_: c_.to(torch.float64), "eval": lambda c_: c_.eval(), "deepcopy": lambda c_: copy.deepcopy(c_)}[spelling](chan)
+                else:
+                    chan = make(ch, p, ers, spelling)
             except Exception as e:  # noqa: BLE001
                 v("raises", f"constructor ({spelling} arguments): {type(e).__name__}: {str(e)[:160]}")
                 continue
